@@ -3,7 +3,7 @@ import re
 
 from engine import site_of
 from facts import callee_decl, callee_name
-from flow import tracer, short, required_outcomes, dep_closure, resolve_through_closure, deep_origins
+from flow import switch_cond, edge_outcome, tracer, short, required_outcomes, dep_closure, resolve_through_closure, deep_origins
 from bounds import const_value
 
 EXPLANATION = (
@@ -76,6 +76,7 @@ def r1_heap_order(ctx):
                       "other.%s vs self.%s" % (lf, rf))
         # sequence field at every construction site
         seq_fields = None
+        counters = {}
         sites = 0
         for body in F.real_fns():
             if body.crate != CRATE or "::tests::" in body.path or body.j.get("derived"):
@@ -92,10 +93,22 @@ def r1_heap_order(ctx):
                             cnt = [e for e in o.path if e[0] == "f" and e[3]]
                             if o.kind == "param" and cnt and _incremented(body, bb, cnt[-1]):
                                 here.add(fname)
+                                counters[fname] = (cnt[-1][3], cnt[-1][2])
                     seq_fields = here if seq_fields is None else (seq_fields & here)
         if sites == 0:
             ctx.bad("%s/construction" % short(elem), "", "no construction site of the heap element found", kind="anchor-missing")
             continue
+        # the insertion counter never wraps or saturates within any realistic lifetime
+        for fname in sorted((seq_fields or set()) & fields_read):
+            adt_, fld_ = counters.get(fname, (None, None))
+            fty = next((f["ty"] for f in (F.adt_fields(adt_) or []) if f["name"] == fld_), "")
+            ety = next((f["ty"] for f in (F.adt_fields(elem) or []) if f["name"] == fname), "")
+            width = min({"u8": 8, "u16": 16, "u32": 32, "u64": 64, "usize": 64, "u128": 128, "i8": 8, "i16": 16, "i32": 32, "i64": 64, "i128": 128}.get(x, 64) for x in (fty, ety))
+            kind = _INC_KIND.get((adt_, fld_), "add")
+            ctx.check(width >= 64, "%s/sequence-counter-wide-enough" % short(elem), site_of(cb),
+                      "the insertion counter `%s` is %d bits wide (%s increment): after 2^%d insertions it %s and messages with equal timestamps pop out of insertion order" % (
+                          fname, width, kind, width, "stops growing" if kind == "saturating" else "wraps (or panics in debug builds)"),
+                      "%d-bit counter, %s increment" % (width, kind))
         ok = bool(seq_fields and (seq_fields & fields_read))
         ctx.check(ok, "%s/cmp-reads-sequence-field" % short(elem), site_of(cb),
                   "Ord::cmp of `%s` reads only %s; none of them is an insertion counter (sequence fields at construction: %s). "
@@ -109,6 +122,9 @@ def r1_heap_order(ctx):
         for bb, t in body.calls():
             if "sort_unstable" in callee_decl(t):
                 ctx.bad("%s/sort_unstable" % short(body.path), site_of(body, bb), "unstable sort in the transport (equal keys are reordered)")
+
+
+_INC_KIND = {}
 
 
 def _incremented(body, site_bb, field_elem):
@@ -130,8 +146,21 @@ def _incremented(body, site_bb, field_elem):
                 srcs.add(o)
         reads_self = any(o.path and o.path[-1][0] == "f" and o.path[-1][2] == field_elem[2] for o in srcs)
         adds_const = any(o.kind == "const" for o in srcs)
+        kind = "add"
+        # increments written as a method call: x.wrapping_add(1), checked_add(1).unwrap(), saturating_add(1), Add::add(x, 1)
+        for o in list(srcs):
+            if o.kind == "call":
+                ct = body.blocks[o.data].term
+                m = callee_decl(ct).rsplit("::", 1)[-1]
+                if m in ("wrapping_add", "checked_add", "saturating_add", "add", "overflowing_add", "strict_add", "unchecked_add") and len(ct.get("args", [])) == 2:
+                    a_src = deep_origins(body, ct["args"][0])
+                    b_src = deep_origins(body, ct["args"][1])
+                    if any(x.path and x.path[-1][0] == "f" and x.path[-1][2] == field_elem[2] for x in a_src) and any(x.kind == "const" for x in b_src):
+                        reads_self, adds_const = True, True
+                        kind = {"wrapping_add": "wrapping", "overflowing_add": "wrapping", "saturating_add": "saturating", "unchecked_add": "wrapping"}.get(m, "add")
         if reads_self and adds_const:
             if body.dominates(site_bb, bb) and body.postdominates(bb, site_bb) or body.dominates(bb, site_bb):
+                _INC_KIND[(field_elem[3], field_elem[2])] = kind
                 return True
     return False
 
@@ -290,6 +319,29 @@ def r3_handoff(ctx):
                       "conditioner.insert is not given the channel and payload of the message just read")
             g = [(c, o) for (s, c, o) in required_outcomes(F, b, ibb, skip_try=False) if c["kind"] == "variant"]
             ctx.check(any(o == {"Ok"} for c, o in g), "%s/insert-on-Ok" % name, site_of(b, ibb), "insert is not on the Ok edge of read_message")
+            # exactly once: a message that was read (and is thereby gone from the stream) is always inserted - from the Ok outcome of
+            # the read no path leads to the next read, or out of the function, without the insert
+            okt = []
+            for bb2 in b.reach:
+                if b.blocks[bb2].term["t"] != "switch":
+                    continue
+                c2 = switch_cond(b, bb2)
+                if c2["kind"] == "variant" and "place" in c2 and any(o.kind == "call" and o.data == rbb for o in tr.place(c2["place"])):
+                    if b.dominates(ibb, bb2):
+                        continue  # drop-elaboration re-tests the result after the insert
+                    for (tb, lab) in b.succ[bb2]:
+                        out = edge_outcome(F, b, bb2, lab, c2)
+                        outs = set(out) if isinstance(out, (tuple, list, set)) else {out}
+                        if "Ok" in outs:
+                            okt.append(tb)
+            lost = []
+            for tb in okt:
+                for target in [rbb] + b.exits():
+                    if b.reachable_avoiding(target, (), start=tb, removed_blocks=(ibb,)):
+                        lost.append(target)
+            ctx.check(bool(okt) and not lost, "%s/every-read-message-is-inserted" % name, site_of(b, ibb),
+                      "a message that was successfully read from the stream can be dropped (the Ok outcome of read_message reaches %s without conditioner.insert): "
+                      "it is gone from the socket and never delivered" % ("the next read" if rbb in lost else "the end of the function"))
             # same loop as the read
             ctx.check({h for h, _ in b.loops_containing(rbb)} == {h for h, _ in b.loops_containing(ibb)} and b.loops_containing(rbb),
                       "%s/insert-in-read-loop" % name, site_of(b, ibb), "read and insert are not in the same loop")
